@@ -95,19 +95,24 @@ def run_agreement(ctx, binary=None):
         cov["cluster_not_quiet"] += summ["not_quiet"]
         cov["cluster_quiet_judged"] += rep.traces - summ["not_quiet"]
         samples.append(scheds[0][:10] if scheds else [])
-        seen = {}
+        # confirm: the reported schedules (at most two per kind of report) are executed a second time, in one batch
+        seen, pick = {}, []
         for (tid, line, clauses, tags) in rep.monitors:
             key = ",".join(sorted(clauses)) + "|" + ",".join(sorted(t for t in tags if t in KNOWN_TAGS))
-            if seen.get(key, 0) >= 2:
+            if seen.get(key, 0) >= 2 or tid in [p[0] for p in pick]:
                 continue
             seen[key] = seen.get(key, 0) + 1
-            t2, _ = execute(ctx, binary, nn, formed, [scheds[tid]], "re-%s-%d" % (tag, tid))
+            pick.append((tid, clauses))
+        if pick:
+            t2, _ = execute(ctx, binary, nn, formed, [scheds[tid] for tid, _ in pick], "re-%s" % tag)
             rep2 = vlib.validate(ctx, "Trace_SerfCluster", tcfg, t2)
-            again = sorted(set(c for m in rep2.monitors for c in m[2] if c in clauses))
-            if again:
-                tg = sorted(set(t for m in rep2.monitors for t in m[3]))
-                viol.append({"clauses": again, "tags": tg, "schedule": scheds[tid], "nn": nn, "formed": formed, "kind": "cluster"})
-            else:
-                ctx.log("cluster report %s on trace %d not reproduced; ignored" % (clauses, tid))
+            for i, (tid, clauses) in enumerate(pick):
+                mine = [m for m in rep2.monitors if m[0] == i]
+                again = sorted(set(c for m in mine for c in m[2]))
+                if again:
+                    tg = sorted(set(t for m in mine for t in m[3]))
+                    viol.append({"clauses": again, "tags": tg, "schedule": scheds[tid], "nn": nn, "formed": formed, "kind": "cluster"})
+                else:
+                    ctx.log("cluster report %s on trace %d not reproduced; ignored" % (clauses, tid))
     cov["cluster_samples"] = samples
     return viol, cov
